@@ -273,7 +273,7 @@ fn spell(name: &str, case: NameCase, is_std: bool) -> String {
                 name.to_ascii_lowercase()
             }
         }
-        NameCase::Any => match t::draw(4) {
+        NameCase::Any => match t::draw(6) {
             0 => name.to_ascii_uppercase(),
             1 => {
                 // first letter upper, rest lower: `Content-length`
@@ -285,15 +285,40 @@ fn spell(name: &str, case: NameCase, is_std: bool) -> String {
                 }
             }
             2 => name.chars().enumerate().map(|(i, c)| if i % 2 == 0 { c.to_ascii_lowercase() } else { c.to_ascii_uppercase() }).collect(),
+            3 => {
+                // every dash-separated word capitalised, the rest lower-case (what Go's net/http sends): `Sec-Websocket-Key`, `Te`
+                name.split('-')
+                    .map(|w| {
+                        let l = w.to_ascii_lowercase();
+                        let mut c = l.chars();
+                        match c.next() {
+                            Some(f) => f.to_ascii_uppercase().to_string() + c.as_str(),
+                            None => l,
+                        }
+                    })
+                    .collect::<Vec<_>>()
+                    .join("-")
+            }
+            4 => {
+                // one letter of the canonical spelling flipped
+                let mut b: Vec<char> = name.chars().collect();
+                let i = crate::rt::t::draw(b.len() as u32) as usize;
+                b[i] = if b[i].is_ascii_uppercase() { b[i].to_ascii_lowercase() } else { b[i].to_ascii_uppercase() };
+                b.into_iter().collect()
+            }
             _ => name.to_string(),
         },
     }
 }
 
-/// standard request headers that are safe to generate freely in a (W) request
-const FREE_STD: [&str; 24] = [
-    "Accept", "Accept-Encoding", "Accept-Language", "Authorization", "Cache-Control", "Content-Type", "Cookie", "Date", "Forwarded", "From", "Host", "If-Match", "If-None-Match", "Link",
-    "Max-Forwards", "Origin", "Range", "Referer", "Sec-Fetch-Dest", "Sec-Fetch-Mode", "User-Agent", "Via", "Content-Language", "Content-Encoding",
+/// standard request headers generated freely in a (W) request: all of them except the three that change how the
+/// message is framed or the session behaves (Content-Length is generated with the body, Transfer-Encoding is class G,
+/// Connection is generated on purpose where a scenario wants it)
+const FREE_STD: [&str; 43] = [
+    "Accept", "Accept-Encoding", "Accept-Language", "Access-Control-Request-Headers", "Access-Control-Request-Method", "Authorization", "Cache-Control", "Content-Disposition", "Content-Encoding",
+    "Content-Language", "Content-Location", "Content-Type", "Cookie", "Date", "Expect", "Forwarded", "From", "Host", "If-Match", "If-Modified-Since", "If-None-Match", "If-Range",
+    "If-Unmodified-Since", "Link", "Max-Forwards", "Origin", "Proxy-Authorization", "Range", "Referer", "Sec-Fetch-Dest", "Sec-Fetch-Mode", "Sec-Fetch-Site", "Sec-Fetch-User",
+    "Sec-WebSocket-Extensions", "Sec-WebSocket-Key", "Sec-WebSocket-Protocol", "Sec-WebSocket-Version", "TE", "Trailer", "User-Agent", "Upgrade", "Upgrade-Insecure-Requests", "Via",
 ];
 const CUSTOM: [&str; 8] = ["X-Request-Id", "X-Trace", "X-A", "Foo", "X-Forwarded-For", "Dnt", "X-Custom-Header-With-A-Long-Name", "Priority"];
 
